@@ -35,13 +35,15 @@ def _api():
 
 
 class World:
-    def __init__(self, dim, tag):
+    def __init__(self, dim, tag, axis=0, ext_minus=1, ext_plus=-1):
         m = _api()
         self.m, self.dim = m, dim
         mk = m['Square'] if dim == 2 else m['Cube']
-        sfx = '%s%d' % (tag, dim)
+        # every glued pair of faces is used: any axis, any pair of sides (also two faces with the same ext —
+        # added after seeded change C07-1, which only misbehaved there)
+        sfx = '%s%d_%d%s%s' % (tag, dim, axis, 'p' if ext_minus > 0 else 'm', 'p' if ext_plus > 0 else 'm')
         A_, B_ = mk('A' + sfx), mk('B' + sfx, bounds1=(1, 2))
-        self.domain = m['Domain'].join([A_, B_], [((0, 0, 1), (1, 0, -1), 1 if dim == 2 else (1, 1, 1))], 'AB' + sfx)
+        self.domain = m['Domain'].join([A_, B_], [((0, axis, ext_minus), (1, axis, ext_plus), 1 if dim == 2 else (1, 1, 1))], 'AB' + sfx)
         self.I = self.domain.interfaces
         self.V = m['ScalarFunctionSpace']('V' + sfx, self.domain)
         self.W = m['VectorFunctionSpace']('W' + sfx, self.domain)
@@ -296,9 +298,10 @@ def run(ctx, n, c, o):
             analyse(ctx, w2, o, None, fixed=fx)
     for it in range(n):
         dim = ctx.rng.choice([2, 2, 3])
-        if dim not in worlds:
-            worlds[dim] = World(dim, 'i')
-        analyse(ctx, worlds[dim], o, lines)
+        key = (dim, ctx.rng.randrange(dim), ctx.rng.choice([1, -1]), ctx.rng.choice([1, -1]))
+        if key not in worlds:
+            worlds[key] = World(dim, 'i', *key[1:])
+        analyse(ctx, worlds[key], o, lines)
     if c is None:
         return
     outs = ctx.driver.run([x[0] for x in lines])
